@@ -373,6 +373,9 @@ func (w *W) execLog(task int, op *scen.Op) {
 		return
 	}
 	msg := op.Msg
+	if len(op.X) > 0 {
+		msg = string(op.X)
+	}
 	args := w.args(op.Args)
 	var ctx context.Context
 	ctx = w.buildCtx(op.Ctx)
